@@ -67,6 +67,16 @@ fn one<S: PS>(case: &Value, acc: &mut Acc) -> Option<bool> {
             println!("replay pk-roundtrip: identical = {ok}");
             Some(!ok)
         }
+        "c11-seed" => {
+            let xi: [u8; 32] = unhex(s(case, "xi")).try_into().ok()?;
+            let got = guarded(|| {
+                let (pk, sk) = S::keygen_seed(&xi);
+                (S::pk_bytes(&pk), S::pk_bytes(&S::derive(&sk)))
+            });
+            let same = matches!(&got, Ok((a, b)) if a == b);
+            println!("replay c11-seed: derived public key serialises to the generated one = {same}");
+            Some(!same)
+        }
         "sig-codec" => {
             crate::props::c08::check_sig_codec::<S>(acc, "replay", &unhex(s(case, "sig")));
             Some(!acc.violations.is_empty())
@@ -104,7 +114,14 @@ pub fn run(ctx: &Ctx) -> StageOut {
                 build: ctx.build.clone(),
                 fixtures: ctx.fixtures.clone(),
                 replay: None,
-                opts: ctx.opts.clone(),
+                opts: {
+                    // stage options recorded with the case (the shared history stage needs its property)
+                    let mut o = ctx.opts.clone();
+                    if let Some(pv) = case["prop"].as_str() {
+                        let _ = o.insert("prop".to_string(), pv.to_string());
+                    }
+                    o
+                },
             };
             if stage.is_empty() || stage == "replay" || stage.starts_with("c14") || stage.starts_with("c17") || stage == "c12-strace" || stage == "c16-miri" {
                 println!("this finding comes from an external-tool stage; re-run `bin/check {}` to reproduce", s(&v, "property"));
